@@ -6,6 +6,7 @@
 -/
 import MocVerif.Lemmas.Canon
 import MocVerif.Model.MocSet
+import MocVerif.Lemmas.MocSetFile
 
 namespace Moc.C14
 
@@ -338,5 +339,197 @@ theorem make_spec (n : Nat) (l : List MsEntry) (s : MocSet) (h : msMake n l = so
       injection h with h
       subst h
       exact ⟨rfl, rfl, by simpa using h1, by simpa using h2⟩
+
+/-! ### The FILE: 64-bit header words and data bytes (`Model/MocSetFile.lean`)
+
+  Every command, transliterated on the metadata / index arrays and the data bytes, commutes with the
+  abstraction map `abs` (what the reader's `zip` of the two iterators decodes): the theorems above,
+  stated on the abstract list of entries, therefore hold of what is READ BACK from the bytes. -/
+section File
+open Moc.MsFile
+
+/-- **Composing then decomposing a metadata word** (`FlagDepthId`) gives back status, depth and the
+    identifier on 48 bits, for every status on 2 bits and every depth on 8 bits. -/
+theorem meta_word_roundtrip (st d id : Nat) (hs : st < 4) (hd : d < 256) :
+    wStatus (pack st d id) = st ∧ wDepth (pack st d id) = d ∧ wId (pack st d id) = id % 2 ^ 48 :=
+  unpack st d id hs hd
+
+/-- **The bytes written for a MOC decode to the same ranges** (32-bit storage up to depth 13, 64-bit
+    storage beyond), for every entry whose ranges are representable at its storage scale. -/
+theorem moc_bytes_roundtrip (e : MsEntry) (h : EntryOk e) : bytesRanges e.depth (entryBytes e) = e.ranges := by
+  have := bytesRanges_entryBytes e h [] (by simpa using elemBytes_pos e.depth)
+  rwa [List.append_nil] at this
+
+/-- A file a history can reach: the canonical file of a list of acceptable entries with at most one
+    live entry per identifier, possibly followed by bytes an interrupted append left behind. -/
+def FileWF (f : File) : Prop :=
+  ∃ l tail, (∀ x ∈ l, EntryOk x) ∧ NoDupLive { n128 := f.n128, entries := l } ∧
+    f = build f.n128 (l.map itemOf) tail
+
+theorem noDupL_of_noDupLive (n : Nat) : ∀ (l : List MsEntry), NoDupLive { n128 := n, entries := l } → NoDupL l := by
+  intro l
+  induction l with
+  | nil => intro _; trivial
+  | cons x t ih =>
+    intro h
+    refine ⟨?_, ih ?_⟩
+    · intro hx y hy hyl hid
+      have := h x.id
+      simp only [List.filter_cons, beq_self_eq_true, hx, decide_true, Bool.and_self, ↓reduceIte,
+        List.length_cons] at this
+      have hm : y ∈ t.filter (fun e => e.id == x.id && decide (e.status > 1)) := by
+        rw [List.mem_filter]
+        exact ⟨hy, by simp [hid, hyl]⟩
+      have := List.length_pos_of_mem hm
+      omega
+    · intro id
+      refine Nat.le_trans ?_ (h id)
+      simp only [List.filter_cons]
+      split
+      · simp only [List.length_cons]; omega
+      · exact Nat.le_refl _
+
+theorem abs_of_wf {f : File} {l : List MsEntry} {tail : List Nat} (hok : ∀ x ∈ l, EntryOk x)
+    (hf : f = build f.n128 (l.map itemOf) tail) : abs f = { n128 := f.n128, entries := l } := by
+  rw [hf]
+  exact abs_canon _ l tail hok
+
+/-- **`make`**: when the abstract command accepts the list, the file written is read back as that list. -/
+theorem file_make_refines (n : Nat) (l : List MsEntry) (s : MocSet) (hok : ∀ x ∈ l, EntryOk x)
+    (h : msMake n l = some s) : ∃ f, fileMake n l = some f ∧ abs f = s := by
+  unfold fileMake
+  rw [h]
+  refine ⟨_, rfl, ?_⟩
+  rw [abs_canon n l [] hok]
+  obtain ⟨h1, h2, _⟩ := make_spec n l s h
+  cases s
+  simp_all
+
+/-- **`append`**: same verdict as the abstract command, and the file read back afterwards is the
+    abstract result; a reachable file stays reachable. -/
+theorem file_append_refines (f : File) (e : MsEntry) (hf : FileWF f) (he : EntryOk e) (hl : e.status > 1) :
+    abs (fileAppend f e).1 = (msAppend (abs f) e).1 ∧ (fileAppend f e).2 = (msAppend (abs f) e).2 ∧
+    FileWF (fileAppend f e).1 := by
+  obtain ⟨l, tail, hok, hnd, hb⟩ := hf
+  have ha := abs_of_wf hok hb
+  have hfa := fileAppend_canon f.n128 l tail e hok
+  rw [← hb] at hfa
+  rw [ha, hfa]
+  by_cases hacc : (msAppend { n128 := f.n128, entries := l } e).2 = true
+  · have hok' : ∀ x ∈ l ++ [e], EntryOk x := by
+      intro x hx
+      simp only [List.mem_append, List.mem_singleton] at hx
+      rcases hx with hx | rfl
+      · exact hok x hx
+      · exact he
+    have h1 : (msAppend { n128 := f.n128, entries := l } e).1 = { n128 := f.n128, entries := l ++ [e] } := by
+      unfold msAppend at hacc ⊢
+      by_cases c1 : (l.any fun x => x.id == e.id && decide (x.status > 1)) = true
+      · simp [c1] at hacc
+      · by_cases c2 : l.length ≥ ({ n128 := f.n128, entries := l } : MocSet).cap
+        · simp [c1, c2] at hacc
+        · simp [c1, c2]
+    rw [if_pos hacc]
+    refine ⟨?_, hacc.symm, ?_⟩
+    · rw [abs_canon _ _ _ hok', h1]
+    · refine ⟨l ++ [e], _, hok', ?_, rfl⟩
+      have := append_noDupLive { n128 := f.n128, entries := l } e hnd hl
+      rw [h1] at this
+      exact this
+  · have hfalse : (msAppend { n128 := f.n128, entries := l } e).2 = false := by
+      cases h : (msAppend { n128 := f.n128, entries := l } e).2 with
+      | true => exact absurd h hacc
+      | false => rfl
+    rw [if_neg hacc]
+    refine ⟨?_, hfalse.symm, ⟨l, tail, hok, hnd, hb⟩⟩
+    rw [ha, append_refused_unchanged _ e hfalse]
+
+theorem entryOk_chgEntry (st : Nat) (ids : List Nat) (x : MsEntry) (hst : 1 ≤ st ∧ st < 4) (h : EntryOk x) :
+    EntryOk (chgEntry st ids x) := by
+  unfold chgEntry
+  split
+  · obtain ⟨_, _, h3, h4, h5⟩ := h
+    exact ⟨hst.1, hst.2, h3, h4, h5⟩
+  · exact h
+
+/-- **`chgstatus`** (the walk that takes an identifier off the map once met) read back = the abstract
+    command, on every reachable file. -/
+theorem file_chg_refines (f : File) (st : Nat) (ids : List Nat) (hf : FileWF f) (hst : 1 ≤ st ∧ st < 4) :
+    abs (fileChg f st ids).1 = (msChgStatus (abs f) st ids).1 ∧ FileWF (fileChg f st ids).1 := by
+  obtain ⟨l, tail, hok, hnd, hb⟩ := hf
+  have ha := abs_of_wf hok hb
+  have hok' : ∀ x ∈ l.map (chgEntry st ids), EntryOk x := by
+    intro x hx
+    obtain ⟨y, hy, rfl⟩ := List.mem_map.1 hx
+    exact entryOk_chgEntry st ids y hst (hok y hy)
+  have hfc := fileChg_canon f.n128 l tail st ids hok (noDupL_of_noDupLive _ l hnd)
+  rw [← hb] at hfc
+  rw [ha, hfc]
+  refine ⟨?_, ?_⟩
+  · rw [abs_canon _ _ _ hok']; rfl
+  · exact ⟨l.map (chgEntry st ids), tail, hok', chg_noDupLive { n128 := f.n128, entries := l } st ids hnd, rfl⟩
+
+/-- **`purge`** read back = the abstract command, on every reachable file. -/
+theorem file_purge_refines (f : File) (k : Option Nat) (hf : FileWF f) :
+    abs (filePurge f k).1 = (msPurge (abs f) k).1 ∧ FileWF (filePurge f k).1 := by
+  obtain ⟨l, tail, hok, hnd, hb⟩ := hf
+  have ha := abs_of_wf hok hb
+  have hok' : ∀ x ∈ l.filter (fun x => decide (x.status > 1)), EntryOk x :=
+    fun x hx => hok x (List.mem_filter.1 hx).1
+  have hfp := filePurge_canon f.n128 l tail k hok
+  rw [← hb] at hfp
+  rw [ha, hfp]
+  refine ⟨?_, ?_⟩
+  · rw [abs_canon _ _ _ hok']; rfl
+  · exact ⟨_, [], hok', purge_noDupLive { n128 := f.n128, entries := l } k hnd, rfl⟩
+
+/-- **`list`** computed from the header words = the abstract listing of what `abs` reads. -/
+theorem file_list_refines (f : File) (hf : FileWF f) : fileList f = msList (abs f) := by
+  obtain ⟨l, tail, hok, _, hb⟩ := hf
+  have := fileList_canon f.n128 l tail hok
+  rw [← hb] at this
+  rw [abs_of_wf hok hb, this]
+
+/-- Commands a history may contain: appended MOCs are acceptable and added live; a status is one of
+    removed / deprecated / valid. -/
+def CmdOk : MsCmd → Prop
+  | .append e => EntryOk e ∧ e.status > 1
+  | .chg st _ => 1 ≤ st ∧ st < 4
+  | .purge _ => True
+
+/-- **Every history, at the level of the file**: whatever sequence of `append`, `chgstatus` and
+    `purge` commands is run on a reachable file, what is read back from the header words and data
+    bytes is exactly the state of the abstract machine after the same commands. -/
+theorem file_history_refines (cs : List MsCmd) : ∀ (f : File), FileWF f → (∀ c ∈ cs, CmdOk c) →
+    abs (fileRun f cs) = msRun (abs f) cs ∧ FileWF (fileRun f cs) := by
+  induction cs with
+  | nil => intro f hf _; exact ⟨rfl, hf⟩
+  | cons c t ih =>
+    intro f hf hc
+    have hstep : abs (fileStep f c) = msStep (abs f) c ∧ FileWF (fileStep f c) := by
+      have hcc := hc c (by simp)
+      cases c with
+      | append e => obtain ⟨h1, _, h3⟩ := file_append_refines f e hf hcc.1 hcc.2; exact ⟨h1, h3⟩
+      | chg st ids => exact file_chg_refines f st ids hf hcc
+      | purge k => exact file_purge_refines f k hf
+    have := ih (fileStep f c) hstep.2 (fun c' hc' => hc c' (by simp [hc']))
+    simp only [fileRun, msRun, List.foldl_cons] at this ⊢
+    rw [← hstep.1]
+    exact this
+
+/-- Non-vacuity: a two-entry file (one 32-bit MOC, one 64-bit MOC) is reachable. -/
+example : FileWF (build 1 ([{ id := 7, status := 3, depth := 3, ranges := [(0, 2 ^ 52)] },
+    { id := 9, status := 2, depth := 20, ranges := [(5 * 2 ^ 18, 6 * 2 ^ 18)] }].map itemOf) []) := by
+  refine ⟨_, [], ?_, ?_, rfl⟩
+  · intro x hx
+    simp only [List.mem_cons, List.not_mem_nil, or_false] at hx
+    rcases hx with rfl | rfl <;> refine ⟨by decide, by decide, by decide, by decide, ?_⟩ <;>
+      (intro r hr; simp only [List.mem_singleton] at hr; subst hr; decide)
+  · intro id
+    simp only [List.filter_cons, List.filter_nil]
+    split <;> split <;> simp_all
+    omega
+
+end File
 
 end Moc.C14
